@@ -54,6 +54,93 @@ pub fn invalid_pool() -> Vec<String> {
     vec!["".to_string(), "a\u{1}b".to_string(), "\u{7f}".to_string()]
 }
 
+/// the directory `new_layer(name)` asks for first / the file name `insert_glyph(name)` asks for first
+fn natural(name: &str, layer: bool) -> String {
+    let (pre, suf) = if layer { ("glyphs.", "") } else { ("", ".glif") };
+    norad::user_name_to_file_name(name, pre, suf, |_| true).to_string_lossy().to_string()
+}
+
+/// valid names (other than `not`) whose natural directory (`layer`) / glif file name equals `file` IGNORING CASE:
+/// the names that must be steered away from `file` once it is taken. Candidates are built from the stem of `file`
+/// (as it is, lower-cased, upper-cased, with the `_` after capitals taken out, that lower-cased / upper-cased) and
+/// kept only when norad's own naming function sends them there (seeded changes C07-r6-1/2, C01-r6-1)
+pub fn reaching_names(file: &str, layer: bool) -> Vec<String> {
+    let (pre, suf) = if layer { ("glyphs.", "") } else { ("", ".glif") };
+    let stem = file.strip_prefix(pre).unwrap_or(file);
+    let stem = stem.strip_suffix(suf).unwrap_or(stem);
+    let mut unesc = String::new();
+    let mut prev_upper = false;
+    for c in stem.chars() {
+        if c == '_' && prev_upper {
+            prev_upper = false;
+            continue;
+        }
+        prev_upper = c.is_uppercase();
+        unesc.push(c);
+    }
+    let cands = [
+        stem.to_string(),
+        stem.to_lowercase(),
+        stem.to_uppercase(),
+        unesc.clone(),
+        unesc.to_lowercase(),
+        unesc.to_uppercase(),
+    ];
+    let want = file.to_lowercase();
+    let mut out: Vec<String> = Vec::new();
+    for c in cands {
+        // no literal lower-case sigma: the driver's lower-casing is the per-character table (trusted base of C06: no
+        // final sigma but the SIGMA_PAIR, whose two names lower-case alike either way); capital sigma against a
+        // literal final sigma is the business of the C07 function-level check, which sends the true table
+        if c.contains('\u{3c2}') || c.contains('\u{3c3}') {
+            continue;
+        }
+        if c.len() < 100 && Name::new(&c).is_ok() && !out.contains(&c) && natural(&c, layer).to_lowercase() == want {
+            out.push(c);
+        }
+    }
+    out
+}
+
+/// every user string mentioned in an op token
+fn op_names(op: &str) -> Vec<String> {
+    let mut v = Vec::new();
+    for part in op.split('.').skip(1) {
+        for piece in part.split('+') {
+            if piece.len() >= 2 && piece.len() % 2 == 0 && piece.chars().all(|c| c.is_ascii_hexdigit()) {
+                if let Ok(s) = String::from_utf8(unhex(piece)) {
+                    v.push(s);
+                }
+            }
+        }
+    }
+    v
+}
+
+/// (layer name, directory, [(glyph, file)]) of a `load:` / `loadfN:` init token
+fn tree_layers(init: &str) -> Vec<(String, String, Vec<(String, String)>)> {
+    let mut v = Vec::new();
+    if let Some((_, spec)) = init.split_once(':') {
+        for layer in spec.split(';') {
+            let p: Vec<&str> = layer.split('~').collect();
+            if p.len() < 2 {
+                continue;
+            }
+            let mut gs = Vec::new();
+            if p.len() > 2 && !p[2].is_empty() {
+                for gf in p[2].split('+') {
+                    let mut it = gf.split('=');
+                    if let (Some(g), Some(f)) = (it.next(), it.next()) {
+                        gs.push((unhexs(g), unhexs(f)));
+                    }
+                }
+            }
+            v.push((unhexs(p[0]), unhexs(p[1]), gs));
+        }
+    }
+    v
+}
+
 fn lc_table(names: &[String]) -> String {
     let mut set = BTreeSet::new();
     for n in names {
@@ -270,15 +357,7 @@ pub fn observe(toks: &[&str], scratch: &Path) -> String {
     let mut names = pool();
     // names mentioned in ops extend the observation pool
     for op in &toks[2..] {
-        for part in op.split('.').skip(1) {
-            for piece in part.split('+') {
-                if piece.len() >= 2 && piece.len() % 2 == 0 && piece.chars().all(|c| c.is_ascii_hexdigit()) {
-                    if let Ok(s) = String::from_utf8(unhex(piece)) {
-                        names.push(s);
-                    }
-                }
-            }
-        }
+        names.extend(op_names(op));
     }
     let src = scratch.join("src.ufo");
     let mut font = if init == "new" {
@@ -335,10 +414,13 @@ fn variant(dbg: &str) -> String {
     dbg.chars().take_while(|c| c.is_alphanumeric()).collect()
 }
 
-fn gen_tree(rng: &mut Rng, names: &[String]) -> String {
+fn gen_tree(rng: &mut Rng, names: &[String], default_at: usize) -> String {
     // clean trees: distinct layer names, distinct directories ignoring case, exactly one `glyphs`
-    let nl = rng.below(4);
-    let dirs = ["glyphs.a", "glyphs.B_", "glyphs.y", "bg", "glyphs.public.default", "glyphs.q01"];
+    let nl = if default_at < 3 { 1 + rng.below(3) } else { rng.below(4) };
+    let dirs = [
+        "glyphs.a", "glyphs.B_", "glyphs.y", "bg", "glyphs.public.default", "glyphs.q01", "glyphs.S_ketch", "glyphs.fore",
+        "glyphs.\u{c9}_",
+    ];
     let lnames = ["a", "b", "Y", "background", "q", "fore"];
     let default_name = if rng.chance(1, 3) { "fore2" } else { "public.default" };
     let mut layers: Vec<(String, String)> = Vec::new();
@@ -351,7 +433,13 @@ fn gen_tree(rng: &mut Rng, names: &[String]) -> String {
             layers.push((n.to_string(), d.to_string()));
         }
     }
-    let pos = rng.below(layers.len() + 1);
+    // layercontents.plist may list the default layer anywhere (norad itself writes it first)
+    let pos = match default_at {
+        0 => 0,
+        1 => (layers.len() + 1) / 2,
+        2 => layers.len(),
+        _ => rng.below(layers.len() + 1),
+    };
     layers.insert(pos, (default_name.to_string(), "glyphs".to_string()));
     let mut out = Vec::new();
     for (n, d) in layers {
@@ -389,14 +477,26 @@ fn gen_tree(rng: &mut Rng, names: &[String]) -> String {
     format!("load:{}", out.join(";"))
 }
 
-fn gen_ops(rng: &mut Rng, len: usize, names: &[String], lnames: &[String], with_entry: bool) -> Vec<String> {
+/// `xg` / `xl`: glyph / layer names that are always part of the history's sub-pools (for a loaded starting state: the
+/// names that reach, ignoring case, a glif file / a directory of the tree, and the tree's own layer names)
+fn gen_ops(
+    rng: &mut Rng,
+    len: usize,
+    names: &[String],
+    lnames: &[String],
+    with_entry: bool,
+    xg: &[String],
+    xl: &[String],
+) -> Vec<String> {
     let inval = invalid_pool();
     let mut ops = Vec::new();
     // names cluster: histories use a small sub-pool so that clashes and re-use are frequent
     let k = 3 + rng.below(4);
-    let sub: Vec<String> = (0..k).map(|_| rng.pick(names).clone()).collect();
+    let mut sub: Vec<String> = (0..k).map(|_| rng.pick(names).clone()).collect();
+    sub.extend(xg.iter().cloned());
     let lk = 2 + rng.below(4);
-    let lsub: Vec<String> = (0..lk).map(|_| rng.pick(lnames).clone()).collect();
+    let mut lsub: Vec<String> = (0..lk).map(|_| rng.pick(lnames).clone()).collect();
+    lsub.extend(xl.iter().cloned());
     let nm = |rng: &mut Rng| -> String { rng.pick(&sub).clone() };
     let ln = |rng: &mut Rng| -> String { rng.pick(&lsub).clone() };
     for _ in 0..len {
@@ -406,8 +506,21 @@ fn gen_ops(rng: &mut Rng, len: usize, names: &[String], lnames: &[String], with_
             0..=5 => format!("ig.{}.{}", li, hexs(&nm(rng))),
             6..=7 => format!("rg.{}.{}", li, hexs(&nm(rng))),
             8..=10 => {
-                let new = if rng.chance(1, 8) { rng.pick(&inval).clone() } else { nm(rng) };
-                format!("mg.{}.{}.{}.{}", li, hexs(&nm(rng)), hexs(&new), rng.below(2))
+                let bad = rng.chance(1, 8);
+                let new = if bad { rng.pick(&inval).clone() } else { nm(rng) };
+                let old = nm(rng);
+                if bad && rng.chance(1, 2) {
+                    // a rename refused for its INVALID new name must leave nothing behind: make sure `old` exists, and
+                    // follow up with a name that wants the file of `old` (stale index / path set shows as a clash or a
+                    // lost glyph at save)
+                    ops.push(format!("ig.{}.{}", li, hexs(&old)));
+                    ops.push(format!("mg.{}.{}.{}.{}", li, hexs(&old), hexs(&new), rng.below(2)));
+                    let reach = reaching_names(&natural(&old, false), false);
+                    let follow = if reach.is_empty() || rng.chance(1, 3) { old.clone() } else { rng.pick(&reach).clone() };
+                    format!("ig.{}.{}", li, hexs(&follow))
+                } else {
+                    format!("mg.{}.{}.{}.{}", li, hexs(&old), hexs(&new), rng.below(2))
+                }
             }
             11 => format!("cl.{}", li),
             12..=13 => {
@@ -421,8 +534,23 @@ fn gen_ops(rng: &mut Rng, len: usize, names: &[String], lnames: &[String], with_
             17 => format!("gc.{}", hexs(&ln(rng))),
             18 => format!("rl.{}", hexs(&ln(rng))),
             19..=21 => {
-                let new = if rng.chance(1, 8) { rng.pick(&inval).clone() } else { ln(rng) };
-                format!("ml.{}.{}.{}", hexs(&ln(rng)), hexs(&new), rng.below(2))
+                let bad = rng.chance(1, 8);
+                let new = if bad { rng.pick(&inval).clone() } else { ln(rng) };
+                let old = ln(rng);
+                if bad && rng.chance(1, 2) {
+                    // same for layers: the refused rename must not release the directory of `old`
+                    ops.push(format!("gc.{}", hexs(&old)));
+                    ops.push(format!("ml.{}.{}.{}", hexs(&old), hexs(&new), rng.below(2)));
+                    let reach = reaching_names(&natural(&old, true), true);
+                    let follow = if reach.is_empty() { ln(rng) } else { rng.pick(&reach).clone() };
+                    if rng.chance(1, 2) {
+                        format!("nl.{}", hexs(&follow))
+                    } else {
+                        format!("ml.{}.{}.{}", hexs(&ln(rng)), hexs(&follow), rng.below(2))
+                    }
+                } else {
+                    format!("ml.{}.{}.{}", hexs(&old), hexs(&new), rng.below(2))
+                }
             }
             22 => {
                 if rng.chance(1, 2) {
@@ -440,6 +568,176 @@ fn gen_ops(rng: &mut Rng, len: usize, names: &[String], lnames: &[String], with_
     ops
 }
 
+/// for a loaded starting state: the names that reach (ignoring case) a glif file of the tree / a directory of the
+/// tree (EVERY listed layer, the first-listed one included), and the tree's own layer names
+fn tree_extras(rng: &mut Rng, init: &str) -> (Vec<String>, Vec<String>) {
+    let (mut xg, mut xl) = (Vec::new(), Vec::new());
+    for (n, d, gs) in tree_layers(init) {
+        xl.extend(reaching_names(&d, true));
+        if rng.chance(1, 2) {
+            xl.push(n);
+        }
+        for (_, f) in gs {
+            if rng.chance(1, 2) {
+                xg.extend(reaching_names(&f, false));
+            }
+        }
+    }
+    (xg, xl)
+}
+
+/// Load histories: trees whose default layer is listed at EVERY position (first, middle, last), followed by
+/// new_layer / get_or_create_layer / rename_layer (of every other layer, both overwrite flags) with every name that
+/// reaches, ignoring case, the directory of a loaded layer — every loaded layer, the first-listed one too — then a short
+/// random tail. The rules are the ordinary ones (directories distinct ignoring case, the model's directory).
+fn directed_loaded(rng: &mut Rng, tier: &str, out: &mut dyn Write, scratch: &Path, names: &[String], lnames: &[String]) {
+    let others: [(&str, &str); 6] = [
+        ("Sketch", "glyphs.S_ketch"),
+        ("b", "glyphs.B_"),
+        ("Y", "glyphs.y"),
+        ("background", "glyphs.fore"),
+        ("q", "glyphs.\u{c9}_"),
+        ("fore", "bg"),
+    ];
+    let rounds = if tier == "thorough" { 6 } else { 1 };
+    for round in 0..rounds {
+        for k in 1..=3usize {
+            for start in 0..others.len() {
+                let chosen: Vec<(&str, &str)> = (0..k).map(|j| others[(start + j * (1 + round % 2)) % others.len()]).collect();
+                if (0..k).any(|i| (0..i).any(|j| chosen[i].1 == chosen[j].1)) {
+                    continue;
+                }
+                for pos in 0..=k {
+                    let default_name = if (start + pos + round) % 3 == 0 { "fore2" } else { "public.default" };
+                    let mut layers: Vec<(String, String)> = chosen.iter().map(|(n, d)| (n.to_string(), d.to_string())).collect();
+                    layers.insert(pos, (default_name.to_string(), "glyphs".to_string()));
+                    let spec: Vec<String> = layers
+                        .iter()
+                        .map(|(n, d)| {
+                            let g = if rng.chance(1, 2) { format!("{}={}", hexs("a"), hexs("a.glif")) } else { String::new() };
+                            format!("{}~{}~{}", hexs(n), hexs(d), g)
+                        })
+                        .collect();
+                    let init = format!("load:{}", spec.join(";"));
+                    let lnow: Vec<&String> = layers.iter().map(|(n, _)| n).collect();
+                    for (_, d) in layers.iter() {
+                        for n in reaching_names(d, true) {
+                            if lnow.contains(&&n) {
+                                continue;
+                            }
+                            let mut hs: Vec<Vec<String>> = vec![vec![format!("nl.{}", hexs(&n))], vec![format!("gc.{}", hexs(&n))]];
+                            for (o, _) in layers.iter() {
+                                hs.push(vec![format!("ml.{}.{}.{}", hexs(o), hexs(&n), rng.below(2))]);
+                            }
+                            for mut h in hs {
+                                if rng.chance(1, 3) {
+                                    let (xg, xl) = tree_extras(rng, &init);
+                                    let tl = 1 + rng.below(4);
+                                    h.extend(gen_ops(rng, tl, names, lnames, false, &xg, &xl));
+                                }
+                                emit(out, scratch, &init, &h);
+                            }
+                        }
+                    }
+                }
+            }
+        }
+    }
+}
+
+/// `Layer::entry` next to `insert_glyph` / `rename_glyph`: a glyph created through the raw entry has no file name (the
+/// recorded finding) UNTIL the same name goes through insert_glyph or becomes a rename target — from then on it must be
+/// saved; a glyph removed through the raw entry leaves its index entry behind (recorded) until insert_glyph puts the
+/// glyph back (seeded change C09-r6-2)
+fn directed_entry(out: &mut dyn Write, scratch: &Path) {
+    let tree = format!(
+        "load:{}~{}~{}={};{}~{}~{}={}",
+        hexs("b"), hexs("glyphs.B_"), hexs("a"), hexs("a.glif"),
+        hexs("public.default"), hexs("glyphs"), hexs("a"), hexs("a.glif")
+    );
+    for init in ["new", tree.as_str()] {
+        for li in 0..2usize {
+            let pre: Vec<String> = if init == "new" && li == 1 { vec![format!("nl.{}", hexs("b"))] } else { Vec::new() };
+            for (x, y) in [("a", "A_"), ("A_", "a"), ("con", "z"), ("\u{c9}", "\u{e9}_")] {
+                let (x, y) = (hexs(x), hexs(y));
+                let hist: Vec<Vec<String>> = vec![
+                    vec![format!("eo.{}.{}", li, x), format!("ig.{}.{}", li, x)],
+                    vec![format!("eo.{}.{}", li, x), format!("ig.{}.{}", li, y), format!("ig.{}.{}", li, x)],
+                    vec![format!("eo.{}.{}", li, x), format!("eo.{}.{}", li, y), format!("ig.{}.{}", li, x)],
+                    vec![format!("eo.{}.{}", li, x), format!("ig.{}.{}", li, x), format!("rg.{}.{}", li, x)],
+                    vec![format!("ig.{}.{}", li, x), format!("er.{}.{}", li, x), format!("ig.{}.{}", li, x)],
+                    vec![format!("ig.{}.{}", li, x), format!("er.{}.{}", li, x), format!("eo.{}.{}", li, x)],
+                    vec![format!("ig.{}.{}", li, x), format!("er.{}.{}", li, x), format!("eo.{}.{}", li, x), format!("ig.{}.{}", li, x)],
+                    vec![format!("ig.{}.{}", li, y), format!("eo.{}.{}", li, x), format!("mg.{}.{}.{}.1", li, y, x)],
+                    vec![format!("ig.{}.{}", li, y), format!("eo.{}.{}", li, x), format!("mg.{}.{}.{}.0", li, y, x)],
+                    vec![format!("eo.{}.{}", li, x), format!("mg.{}.{}.{}.0", li, x, y)],
+                    vec![format!("eo.{}.{}", li, x), format!("mg.{}.{}.{}.1", li, x, x)],
+                    vec![format!("eo.{}.{}", li, x), format!("rt.{}.{}", li, x), format!("ig.{}.{}", li, x)],
+                    vec![format!("eo.{}.{}", li, x), format!("cl.{}", li), format!("ig.{}.{}", li, x)],
+                ];
+                for h in hist {
+                    let mut ops = pre.clone();
+                    ops.extend(h);
+                    emit(out, scratch, init, &ops);
+                }
+            }
+        }
+    }
+}
+
+/// Renames refused for an INVALID new name (empty, control characters), glyphs and layers, both overwrite flags,
+/// followed by what exposes state left behind: a name that wants the same file / directory ignoring case, the old name
+/// again, a removal, and the final save + load (seeded changes C01-r6-1, C07-r6-1)
+fn directed_refused(out: &mut dyn Write, scratch: &Path) {
+    let tree = format!(
+        "load:{}~{}~{}={};{}~{}~{}={};{}~{}~",
+        hexs("Sketch"), hexs("glyphs.S_ketch"), hexs("A"), hexs("A_.glif"),
+        hexs("public.default"), hexs("glyphs"), hexs("A"), hexs("A_.glif"),
+        hexs("A"), hexs("glyphs.A_")
+    );
+    for inv in invalid_pool() {
+        let inv = hexs(&inv);
+        for ow in 0..2 {
+            for x in ["A", "a", "Sketch", "con", "\u{c9}", "a."] {
+                let gr = reaching_names(&natural(x, false), false);
+                let lr = reaching_names(&natural(x, true), true);
+                let x = hexs(x);
+                for init in ["new", tree.as_str()] {
+                    for li in 0..2usize {
+                        let mut pre: Vec<String> = if init == "new" && li == 1 { vec![format!("nl.{}", hexs("b"))] } else { Vec::new() };
+                        pre.push(format!("ig.{}.{}", li, x));
+                        pre.push(format!("mg.{}.{}.{}.{}", li, x, inv, ow));
+                        emit(out, scratch, init, &pre);
+                        for r in gr.iter().map(|r| hexs(r)) {
+                            let mut h = pre.clone();
+                            h.push(format!("ig.{}.{}", li, r));
+                            emit(out, scratch, init, &h);
+                        }
+                        let mut h = pre.clone();
+                        h.push(format!("rg.{}.{}", li, x));
+                        h.push(format!("ig.{}.{}", li, x));
+                        emit(out, scratch, init, &h);
+                    }
+                    let pre = vec![format!("gc.{}", x), format!("ml.{}.{}.{}", x, inv, ow)];
+                    emit(out, scratch, init, &pre);
+                    for r in lr.iter().map(|r| hexs(r)) {
+                        for follow in [
+                            vec![format!("nl.{}", r)],
+                            vec![format!("gc.{}", r)],
+                            vec![format!("nl.{}", hexs("z")), format!("ml.{}.{}.{}", hexs("z"), r, ow)],
+                            vec![format!("rl.{}", x), format!("nl.{}", r), format!("nl.{}", x)],
+                        ] {
+                            let mut h = pre.clone();
+                            h.extend(follow);
+                            emit(out, scratch, init, &h);
+                        }
+                    }
+                }
+            }
+        }
+    }
+}
+
 fn layer_name_pool() -> Vec<String> {
     [
         "a", "A", "a_", "b", "public.default", "fore", "fore2", "glyphs", "con", "background", "Y", "q", "\u{c9}",
@@ -454,6 +752,17 @@ fn layer_name_pool() -> Vec<String> {
 fn emit(out: &mut dyn Write, scratch: &Path, init: &str, ops: &[String]) {
     let mut all = pool();
     all.extend(layer_name_pool());
+    for o in ops {
+        all.extend(op_names(o));
+    }
+    for (n, d, gs) in tree_layers(init) {
+        all.push(n);
+        all.push(d);
+        for (g, f) in gs {
+            all.push(g);
+            all.push(f);
+        }
+    }
     let lc = lc_table(&all);
     let mut toks: Vec<&str> = vec![&lc, init];
     for o in ops {
@@ -515,7 +824,8 @@ pub fn gen(tier: &str, seed: u64, out: &mut dyn Write) {
     let maxlen = if tier == "thorough" { 120 } else { 25 };
     for i in 0..n {
         let init = if rng.chance(1, 3) {
-            let t = gen_tree(&mut rng, &names);
+            // the default layer listed first / in the middle / last / anywhere
+            let t = gen_tree(&mut rng, &names, i % 4);
             if rng.chance(1, 3) {
                 // partial loads: custom layer filters, default-only, none
                 t.replacen("load:", &format!("loadf{}:", 1 + rng.below(6)), 1)
@@ -528,9 +838,13 @@ pub fn gen(tier: &str, seed: u64, out: &mut dyn Write) {
         let len = 1 + rng.below(maxlen);
         // one history in eight exercises the `entry` API (recorded finding: it bypasses the index)
         let with_entry = i % 8 == 7;
-        let ops = gen_ops(&mut rng, len, &names, &lnames, with_entry);
+        let (xg, xl) = tree_extras(&mut rng, &init);
+        let ops = gen_ops(&mut rng, len, &names, &lnames, with_entry, &xg, &xl);
         emit(out, &scratch, &init, &ops);
     }
+    directed_loaded(&mut rng, tier, out, &scratch, &names, &lnames);
+    directed_entry(out, &scratch);
+    directed_refused(out, &scratch);
     // directed: insert X, insert its case partner (both orders; glyphs and layers; with a removal in between)
     for pair in CASE_PARTNERS.chunks(2) {
         for (x, y) in [(pair[0], pair[1]), (pair[1], pair[0])] {
